@@ -159,6 +159,8 @@ where
     }
     let t0 = Instant::now();
     let threads = ctx.threads.max(1).min(cases.len());
+    // development aid: VERIF_SURVEY=1 lists every failing case of an enumeration instead of stopping
+    let survey = std::env::var("VERIF_SURVEY").is_ok();
     let next = std::sync::atomic::AtomicUsize::new(0);
     let merged = Mutex::new(Stats::default());
     let failure: Mutex<Option<(usize, Failure)>> = Mutex::new(None);
@@ -174,12 +176,17 @@ where
                         if i >= cases.len() {
                             break;
                         }
-                        if let Some((j, _)) = &*failure.lock().unwrap() {
-                            if *j < i {
-                                break;
+                        if !survey {
+                            if let Some((j, _)) = &*failure.lock().unwrap() {
+                                if *j < i {
+                                    break;
+                                }
                             }
                         }
                         if let Err(what) = guarded(|| oracle(&cases[i], &mut st)) {
+                            if survey {
+                                eprintln!("SURVEY case {i}: {what}");
+                            }
                             let mut f = failure.lock().unwrap();
                             if f.as_ref().map_or(true, |(j, _)| i < *j) {
                                 *f = Some((
